@@ -590,6 +590,12 @@ class Bits:
                         fact = ("cond", ("contains", f[1], f[2], kind == "t_eq"))
                     elif cst == 0:
                         fact = ("cond", ("iszero", f[1], f[2], kind == "t_eq"))
+                if fact is None and a is not None and b is not None and a.alts and b.alts:
+                    # comparison decided by the known bits: some bit is 1 on one side and 0 on the other -> unequal
+                    if all((x.s & y.c) or (x.c & y.s) for x in a.alts for y in b.alts):
+                        fact = ("cond", ("known", (), 0, kind == "t_ne"))
+                    elif all((x.s | x.c) == M64 and (y.s | y.c) == M64 and x.s == y.s for x in a.alts for y in b.alts):
+                        fact = ("cond", ("known", (), 0, kind == "t_eq"))
             elif kind == "t_empty":
                 val = TOP
                 if args[0].place is not None:
@@ -750,6 +756,8 @@ class Bits:
         else:
             return st
         holds = (truth == pos)   # does the predicate hold on this edge?
+        if kind == "known":
+            return st if holds else None
         keys = key if (key and isinstance(key[0], tuple)) else (key,)
         st = dict(st)
         if kind == "anycontains":
@@ -908,6 +916,19 @@ class Bits:
 
     def reachable(self, bb):
         return self.IN[bb] is not None
+
+    def feasible_edges(self):
+        """Keys of the CFG edges some partition's state can take (the rest are decided by the flag facts)."""
+        ok = set()
+        for bb, parts in enumerate(self.PIN):
+            if not parts:
+                continue
+            for st_in in parts:
+                out = self.transfer(bb, st_in)
+                for e in self.cfg.succ.get(bb, []):
+                    if e.key() not in ok and self.refine(bb, e, out) is not None:
+                        ok.add(e.key())
+        return ok
 
     def at_call(self, term):
         sts = self.at_call_parts(term)
